@@ -193,19 +193,36 @@ def run(ctx):
             else:
                 perms = CLASS_PERMS[cls]
             required = set(perms)
-            if cls == 'stdout':
+
+            def stdout_required(body):
                 # the book names the exact permission per documented function
-                top = mir.enclosing_fn(b)
+                top = mir.enclosing_fn(body)
                 topb = mir.by_id.get(top)
-                if topb is not None:
-                    fnname = strip_generics(top).split('::')[-1]
-                    names = {g['name'] for g in regs_by_fn.get((topb.file, fnname), []) if g['name']}
-                    doc = set()
-                    for n in names:
-                        doc |= reqs.get(n, set())
-                    if doc & required:
-                        required = doc & required
+                if topb is None:
+                    return set()
+                fnname = strip_generics(top).split('::')[-1]
+                names = {g['name'] for g in regs_by_fn.get((topb.file, fnname), []) if g['name']}
+                doc = set()
+                for n in names:
+                    doc |= reqs.get(n, set())
+                return doc & CLASS_PERMS['stdout']
+            if cls == 'stdout':
+                required = stdout_required(b) or required
             ok, trail = mirq.guarded_interproc(mir, b, bb, guard_blocks(mir, required))
+            if ok and cls == 'stdout' and len(required) > 1 and b.kind != 'closure':
+                # a writing helper shared by builtins with different permissions: the permission is the
+                # *calling builtin's* (the book's), so the helper is judged once per caller (seeded C11f)
+                for (cb, ci, ct) in mir.callers_index().get(b.nid, []):
+                    creq = stdout_required(cb) or required
+                    gf = guard_blocks(mir, creq)
+                    if any(mirq.dominates(b, k, bb) for k in gf(b)):
+                        continue
+                    okc, trc = mirq.guarded_interproc(mir, cb, ci, gf)
+                    if not okc:
+                        ok, required = False, creq
+                        trail = ['%s <- %s at %s' % (b.id, cb.id, mirq.site(cb, ci))] + trc
+                        what = '%s (through the shared helper %s, called from %s)' % (what, b.nid, cb.nid)
+                        break
             r2.inst({'class': cls, 'body': b.id, 'site': mirq.site(b, bb), 'permission': sorted(required)}, ok=ok, kind=(cls, b.id, bb))
             if not ok:
                 r2.fail('%s/%s' % (b.nid, cls), mirq.site(b, bb),
